@@ -285,7 +285,7 @@ var props = map[string]*propConfig{
 			{Name: "viewer", Harness: "h2", Flags: map[string]string{"family": "viewer"}, Quick: 8000, Thorough: 2400000},
 		},
 		QuickBudget: 100 * time.Second, ThoroughBudget: 20 * time.Minute, Chunk: 50,
-		Rule:        "one run = a generated upload configuration, 2..6 counter files (several programs, versions, Go versions, platforms incl. unlisted ones, near-miss counter and stack names), one real upload.Run whose every request is delivered by the simulated transport to the real upload handler configured with the same configuration (must answer 200); then each produced body is re-delivered six times with one field changed to a near-miss (program, version, Go version, GOOS, GOARCH, counter, stack first line): the handler must answer 4xx exactly when the reference semantics put the changed report outside the configuration",
+		Rule:        "one run = a generated upload configuration, 2..6 counter files (several programs, versions, Go versions, platforms incl. unlisted ones, near-miss counter and stack names), one real upload.Run whose every request is delivered by the simulated transport to the real upload handler configured with the same configuration (must answer 200); then each produced body is re-delivered six times with one field changed to a near-miss (program, version, Go version, GOOS, GOARCH, counter, stack first line): the handler must answer 4xx exactly when the reference semantics put the changed report outside the configuration; viewer family, in half of the runs: 2..4 pages are asked of one index-page handler (the real handleIndex behind a template of the harness that prints every file's and report's flags and summaries) with ?config= absent, latest, empty or a version, while the configuration file on disk is replaced by a new version, removed or restored between pages; every page must equal the page a handler made for that one request gives (lines compared as a set, names inside a summary in any order): viewer-page-depends-on-earlier-pages",
 		Real:        []string{"internal/upload (uploader filter)", "godev/cmd/telemetrygodev validate/handleUpload + middleware", "internal/config"},
 		Stub:        []string{"transport simulated (no socket)", "the `go` command run by configstore.Download (real code) is simulated", "counter files from the independent encoder", "viewer family: the viewer's newCounterFile/summary are evaluated on generated files and configurations and compared with the same reference semantics (active flags per metadata item, counter and stack; summary text)"},
 		Assumptions: []string{"refcfg is the documented semantics"},
